@@ -47,6 +47,7 @@ VARIABLES
   stash,        \* Seq([wt, idx, base])  stash stack, newest first
   truth,        \* [1..MaxUid -> Author \cup {None}]
   nu,           \* next free uid
+  der,          \* [1..MaxUid -> 0..MaxUid]  the uid a line was derived from by a "mod" edit (0 = typed afresh)
   dirty,        \* [File -> Author \cup {None}]  whose un-checkpointed edits a file holds
   wl,           \* [0..MaxCommit -> WL]      working log per base
   ini,          \* [0..MaxCommit -> [File -> LineMap]]   INITIAL per base
@@ -59,10 +60,10 @@ VARIABLES
   taint,        \* trace mode: deviation names that fired with effect in the current run
   hist          \* gen mode: replay script (hidden by VIEW)
 
-gitvars == <<wt, idx, tree, par, ckind, nc, head, stash, truth, nu, dirty>>
+gitvars == <<wt, idx, tree, par, ckind, nc, head, stash, truth, nu, der, dirty>>
 aivars  == <<wl, ini, notes, snote, blame>>
 vars    == <<gitvars, aivars, l, viol, drift, taint, hist>>
-view    == <<gitvars, aivars>>
+view    == <<gitvars, aivars, taint>>
 
 -----------------------------------------------------------------------------
 (* Lines, contents, line maps *)
@@ -116,9 +117,27 @@ HeadTree == IF head = 0 THEN AllEmpty ELSE tree[head]
 TreeOf(c) == IF c = 0 THEN AllEmpty ELSE tree[c]
 SessionsIn(maps) == { s \in Session : \E f \in File : \E i \in DOMAIN maps[f] : maps[f][i] = s }
 
-\* attribution transfer at line granularity: surviving uids keep their author, new uids get a
-Transfer(old, oattr, new, a) ==
-  [i \in 1..Len(new) |-> IF new[i][1] \in UidsOf(old) THEN At(oattr, PosOfUid(old, new[i][1])) ELSE a]
+\* attribution transfer at line granularity: surviving uids keep their author, new uids get a.
+\* As built (attribution_tracker.rs): every deletion of non-blank text leaves a zero-length marker of the
+\* deleting author at the deletion point, and a marker strictly inside a line claims that line.  When whole
+\* lines are deleted right AFTER a line that is part of the same changed hunk (here: a re-indented line), the
+\* marker lands at the end of that line, which is then credited to the deleting author although only its
+\* indentation changed.  Deviation name: "del_marker_claims_reindented_line".
+RECURSIVE Root(_)
+Root(u) == IF der[u] = 0 THEN u ELSE Root(der[u])
+RootsOf(c) == { Root(c[i][1]) : i \in DOMAIN c }
+MarkerClaims(old, new, i) ==
+  LET x == new[i]
+      j == PosOfUid(old, x[1])
+  IN  /\ x \notin LinesOf(old)                                  \* re-indented: the line is in a changed hunk
+      /\ j < Len(old) /\ Root(old[j + 1][1]) \notin RootsOf(new)    \* the old line after it is truly deleted
+      /\ (i = Len(new) \/ new[i + 1][1] \in UidsOf(old))            \* and is not paired with a fresh line
+Transfer(D, old, oattr, new, a) ==
+  [i \in 1..Len(new) |->
+     IF new[i][1] \in UidsOf(old)
+     THEN IF "del_marker_claims_reindented_line" \in D /\ MarkerClaims(old, new, i) THEN a
+          ELSE At(oattr, PosOfUid(old, new[i][1]))
+     ELSE a]
 
 -----------------------------------------------------------------------------
 (* B.1  checkpoint.rs:run.   W = working log of the base, I = INITIAL of the base,
@@ -134,14 +153,16 @@ CkFiles(W, I, ht, work, index, reported, pre) ==
 CkEnt(D, prior, in0, htf, cur, kind, a, pre) ==
   LET isAI  == kind = "ai"
       tch   == prior.touched \/ in0 # <<>>
-      mk(attr) == [has |-> TRUE, snap |-> cur, attr |-> Trim(attr),
-                   va  |-> IF HasAI(attr) \/ "empty_entry_keeps_older" \notin D THEN Trim(attr) ELSE prior.va,
+      \* an entry that carries attribution data supersedes what earlier entries said about the file
+      \* (virtual_attribution.rs:from_just_working_log; the human-only fast path writes no attribution data)
+      mk(attr) == [has |-> TRUE, snap |-> cur, attr |-> Trim(attr), va |-> Trim(attr),
                    touched |-> prior.touched \/ isAI \/ HasAI(attr)]
+      mkBare   == [has |-> TRUE, snap |-> cur, attr |-> <<>>, va |-> prior.va, touched |-> prior.touched]
   IN  CASE ~isAI /\ ~tch /\ pre -> prior
         [] ~isAI /\ ~tch ->
-              IF cur = (IF prior.has THEN prior.snap ELSE htf) THEN prior ELSE mk(<<>>)
+              IF cur = (IF prior.has THEN prior.snap ELSE htf) THEN prior ELSE mkBare
         [] prior.has ->
-              IF cur = prior.snap THEN prior ELSE mk(Transfer(prior.snap, prior.attr, cur, a))
+              IF cur = prior.snap THEN prior ELSE mk(Transfer(D, prior.snap, prior.attr, cur, a))
         [] OTHER ->
               IF cur = htf /\ in0 = <<>> THEN prior
               ELSE IF in0 # <<>>
@@ -150,7 +171,7 @@ CkEnt(D, prior, in0, htf, cur, kind, a, pre) ==
                         mk([i \in 1..Len(cur) |->
                               IF At(in0, i) # H THEN At(in0, i)
                               ELSE IF isAI /\ i > Len(htf) THEN a ELSE H])
-                   ELSE mk(Transfer(htf, <<>>, cur, a))
+                   ELSE mk(Transfer(D, htf, <<>>, cur, a))
 
 CkResult(D, W, I, ht, work, index, kind, a, reported, pre) ==
   LET skipAll == pre /\ ~W.ai /\ (\A f \in File : I[f] = <<>>)
@@ -228,6 +249,9 @@ C05_WellFormed ==
     /\ \A f \in File : Len(notes[c].files[f]) <= Len(tree[c][f])
     /\ SessionsIn(notes[c].files) \subseteq notes[c].prompts
 
+\* gen mode: the as-built design is required to satisfy a clause wherever no known deviation fired
+Clean(p) == taint # {} \/ p
+
 PropertyNames == {"C01_Exact", "C01_OnlyAdded", "C03_Notes", "C03_Blame", "C05_WellFormed"}
 Holds(p) == CASE p = "C01_Exact" -> C01_Exact
               [] p = "C01_OnlyAdded" -> C01_OnlyAdded
@@ -269,7 +293,7 @@ AiAdopt(g, cwl, cini, cnotes, fired) ==
   IF Gen
   THEN /\ wl' = cwl /\ ini' = cini /\ notes' = cnotes
        /\ blame' = BlameOf(cnotes, g.tree, g.par, g.head, g.wt)
-       /\ drift' = drift /\ taint' = taint
+       /\ drift' = drift /\ taint' = taint \cup fired
   ELSE LET ownl == [b \in 0..MaxCommit |-> [ent |-> Ev.obs.wl[b + 1].ent, ai |-> Ev.obs.wl[b + 1].ai,
                                               sess |-> SetOf(Ev.obs.wl[b + 1].sess)]]
            oini == From0(Ev.obs.ini)
@@ -308,6 +332,9 @@ Edit(who, kind, f, c) ==
   /\ LET fresh == { u \in UidsOf(c) : u >= nu }
      IN /\ truth' = [u \in 1..MaxUid |-> IF u \in fresh THEN who ELSE truth[u]]
         /\ nu' = IF fresh = {} THEN nu ELSE Max(fresh) + 1
+        /\ der' = [u \in 1..MaxUid |->
+                     IF u \in fresh /\ kind = "mod" /\ PosOfUid(c, u) \in DOMAIN wt[f]
+                     THEN wt[f][PosOfUid(c, u)][1] ELSE der[u]]
   /\ dirty' = [dirty EXCEPT ![f] = who]
   /\ LET g == NG([wt EXCEPT ![f] = c], idx, tree, par, ckind, nc, head)
      IN GitAdopt(g) /\ AiSame(g)
@@ -332,7 +359,7 @@ Checkpoint(kind, a, reported) ==
      IN AiAdopt(SameG, [wl EXCEPT ![head] = op(Dev)], ini, notes, FiredDevs(op))
   /\ dirty' = [f \in File |-> IF dirty[f] = a THEN None ELSE dirty[f]]
   /\ GitAdopt(SameG)
-  /\ UNCHANGED <<truth, nu, stash, snote>>
+  /\ UNCHANGED <<truth, nu, der, stash, snote>>
   /\ Step([a |-> "Ckpt", kind |-> kind, who |-> a, files |-> reported])
 
 GenCheckpoint ==
@@ -344,7 +371,7 @@ AddFile(f) ==
   /\ Guard(idx[f] # wt[f] /\ NoAgentDirty)
   /\ LET g == NG(wt, [idx EXCEPT ![f] = wt[f]], tree, par, ckind, nc, head)
      IN GitAdopt(g) /\ AiSame(g)
-  /\ UNCHANGED <<truth, nu, dirty, stash, snote>>
+  /\ UNCHANGED <<truth, nu, der, dirty, stash, snote>>
   /\ Step([a |-> "Add", f |-> f])
 
 \* ---- commit.  mode "all" = add -A then commit; "staged" = commit the index; "paths" = commit -- F
@@ -381,7 +408,7 @@ Commit(mode, F) ==
                    [notes EXCEPT ![c] = MkNote(res.nf, res.sess)],
                    FiredDevs(op))
   /\ dirty' = [f \in File |-> IF nt[f] = wt[f] THEN None ELSE dirty[f]]
-  /\ UNCHANGED <<truth, nu, stash, snote>>
+  /\ UNCHANGED <<truth, nu, der, stash, snote>>
   /\ Step([a |-> "Commit", mode |-> mode, files |-> F])
 
 GenCommit ==
@@ -408,13 +435,13 @@ InitUnborn ==
   /\ wt = AllEmpty /\ idx = AllEmpty /\ tree = NoTrees
   /\ par = [c \in 1..MaxCommit |-> 0] /\ ckind = [c \in 1..MaxCommit |-> None]
   /\ nc = 0 /\ head = 0
-  /\ truth = [u \in 1..MaxUid |-> None] /\ nu = 1
+  /\ truth = [u \in 1..MaxUid |-> None] /\ nu = 1 /\ der = [u \in 1..MaxUid |-> 0]
 
 InitBase ==
   /\ wt = BaseTree /\ idx = BaseTree /\ tree = [NoTrees EXCEPT ![1] = BaseTree]
   /\ par = [c \in 1..MaxCommit |-> 0] /\ ckind = [[c \in 1..MaxCommit |-> None] EXCEPT ![1] = "init"]
   /\ nc = 1 /\ head = 1
-  /\ truth = [u \in 1..MaxUid |-> IF u <= 2 THEN H ELSE None] /\ nu = 3
+  /\ truth = [u \in 1..MaxUid |-> IF u <= 2 THEN H ELSE None] /\ nu = 3 /\ der = [u \in 1..MaxUid |-> 0]
 
 Init == InitCommon /\ (IF InitKind = "base" THEN InitBase ELSE InitUnborn)
 
@@ -448,7 +475,7 @@ TrReset ==
              /\ ckind' = [c \in 1..MaxCommit |-> None]
              /\ nc' = 0 /\ head' = 0
              /\ truth' = [u \in 1..MaxUid |-> None] /\ nu' = 1
-  /\ par' = [c \in 1..MaxCommit |-> 0]
+  /\ par' = [c \in 1..MaxCommit |-> 0] /\ der' = [u \in 1..MaxUid |-> 0]
   /\ stash' = <<>> /\ snote' = <<>>
   /\ dirty' = [f \in File |-> None]
   /\ wl' = [b \in 0..MaxCommit |-> EmptyWL]
